@@ -344,6 +344,76 @@ def scenario_hosted(r, cluster, teardown):
             "stages": [{"targets": [tgt(t)], "policy": "explicit", "explicit": explicit}], "twin": False}
 
 
+def scenario_phase_orphan(r, cluster, strategy="native", with_set=True):
+    """A phase object deleted with orphan propagation (kubectl delete --cascade=orphan: deletionTimestamp and the
+    "orphan" finalizer next to the cached finalizer) that still controls its members: the phase controller deletes
+    nothing and lets its own finalizer go."""
+    okind, ons, pkind = (2, 0, 4) if cluster else (1, 1, 3)
+    pns = 1 if cluster else 0
+    objs = [pl.mk_pobj(1, pns, 1, body=1), pl.mk_pobj(2, pns, 2, body=1), pl.mk_pobj(1, pns, 3, body=1)]
+    t = sl.mk_set(okind, ons, 10, 100, rv=5, phases=[{"name": 1, "class": True, "objects": objs}], revision=1,
+                  remotes=[[join_name(10, 1), 300]], life=r.choice([0, 0, 1]))
+    po = mk_phase_obj(pkind, ons, join_name(10, 1), 300, rv=20, gen=1, owners=[[okind, 10, 100, 1]], revision=1, objects=objs,
+                      conds=[[0, 0, 0, 1]], deleting=True, fin=True, orphan=True)
+    store = []
+    for i, o in enumerate(objs):
+        if i == 2 and r.random() < 0.5:
+            continue
+        m = pl.mk_obj(o["gk"], 1, o["name"], 7 + 2 * i, 8 + 2 * i, body=1, avail=1, obsgen=1, rev=1, cache=r.random() < 0.8,
+                      fin=(i == 1 and r.random() < 0.3))
+        m["aowners" if strategy == "annot" else "owners"] = [[pkind, join_name(10, 1), 300, 1]]
+        store.append(m)
+    ptgt = {"kind": pkind, "ns": ons, "name": po["name"], "uid": po["uid"]}
+    explicit = [{"actor": "phase", "target": ptgt}]
+    if with_set:
+        explicit.append({"actor": "set", "target": tgt(t)})
+    explicit.append({"actor": "phase", "target": ptgt})
+    return {"family": "phase-orphan", "force": False, "strategy": strategy, "store": store, "sets": [t] if with_set else [],
+            "phases": [po], "nss": [[1, 0]] if ons else [], "next_rv": 50, "next_uid": 400, "kubelet": False,
+            "stages": [{"targets": [tgt(t)], "policy": "explicit", "explicit": explicit}], "twin": False}
+
+
+def scenario_lagged_teardown(r, cluster, variant, archive=False):
+    """Teardown of a delegated phase while the manager's cached client still serves the old incarnation of the phase
+    object (controlled by the ObjectSet); on the API server it was re-created under a new uid by another ObjectSet
+    ("recreated"), re-owned ("reowned") or orphaned ("released"). The uncached read sees that and leaves it alone."""
+    okind, ons, pkind = (2, 0, 4) if cluster else (1, 1, 3)
+    pns = 1 if cluster else 0
+    objs = [pl.mk_pobj(1, pns, 1, body=1)]
+    t = sl.mk_set(okind, ons, 10, 100, rv=5, phases=[{"name": 1, "class": True, "objects": objs}], revision=1,
+                  remotes=[[join_name(10, 1), 300]])
+    if archive:
+        t["life"] = 2
+    else:
+        t["deleting"] = True
+    old = mk_phase_obj(pkind, ons, join_name(10, 1), 300, rv=20, gen=1, owners=[[okind, 10, 100, 1]], revision=1, objects=objs,
+                       conds=[[0, 0, 0, 1]])
+    new = copy.deepcopy(old)
+    new["rv"] = 40
+    if variant == "recreated":
+        new["uid"], new["owners"], new["conds"] = 301, [[okind, 11, 110, 1]], []
+    elif variant == "reowned":
+        new["owners"] = [[okind, 10, 100, 0], [okind, 11, 110, 1]]
+    else:
+        new["owners"] = []
+    return {"family": "lagged-teardown", "force": False, "strategy": "native", "store": [], "sets": [t], "phases": [new],
+            "stale_phases": [old], "nss": [[1, 0]] if ons else [], "next_rv": 50, "next_uid": 400, "kubelet": False,
+            "stages": [{"targets": [tgt(t)], "policy": "explicit", "explicit": [{"actor": "set", "target": tgt(t)}, {"actor": "set", "target": tgt(t)}]}],
+            "twin": False}
+
+
+def teardown_corpus(r):
+    """Orphaned phase objects and teardown under cache lag (C05 clauses on the delegation machinery)."""
+    scs = []
+    for cluster in (False, True):
+        for strategy in ("native", "annot"):
+            scs.append(scenario_phase_orphan(r, cluster, strategy))
+        scs.append(scenario_phase_orphan(r, cluster, "native", with_set=False))
+        for variant in ("recreated", "reowned", "released"):
+            scs.append(scenario_lagged_teardown(r, cluster, variant, archive=(variant == "reowned" and cluster)))
+    return scs
+
+
 def scenario_clash(strategy="native"):
     """ObjectSet "n3-p2" with phase "p5" and ObjectSet "n3" with phase "p2-p5": both name their phase object
     "n3-p2-p5" (ObjectSet.join_name 3002 5 = join_name 3 2005)."""
@@ -383,6 +453,7 @@ def gen(seed, tier):
         for teardown in (False, True):
             scs.append(scenario_hosted(r, cluster, teardown))
     scs.append(scenario_prev_deleted(r))
+    scs += teardown_corpus(r)
     # every subset of phases delegated, 1-3 phases, round-robin and random schedules, both strategies
     for nph in (1, 2, 3):
         for m in masks(nph):
